@@ -225,3 +225,11 @@ Proof. exact (conj pin_emitter_absent_sites (conj pin_emitter_absent_raise (conj
    the unconditional C18_absent_never_emitted rests on *)
 Theorem C18_emitter_meta_guarded : emitter_meta_guarded = true.
 Proof. exact pin_emitter_meta_guarded. Qed.
+
+(* ---- source-text pins (generated by harness/pinsets.py) ---- *)
+(* every function of these modules is, text for text (comments and docstrings excluded), the one the models of this
+   property were written against and validated against: harness/translate/srcdigest_t.py, Src/Pin_*.v *)
+From OV Require Import Gen.SrcDigestGen Src.Pin_mcp_write Src.Pin_core_emitter Src.Pin_core_lexer Src.Pin_core_parser Src.Pin_cli_main.
+Theorem C18_pin_source_text :
+  src_mcp_write_pinned /\ src_core_emitter_pinned /\ src_core_lexer_pinned /\ src_core_parser_pinned /\ src_cli_main_pinned.
+Proof. exact (conj src_mcp_write_pinned_ok (conj src_core_emitter_pinned_ok (conj src_core_lexer_pinned_ok (conj src_core_parser_pinned_ok src_cli_main_pinned_ok)))). Qed.
